@@ -623,8 +623,21 @@ func runC09(c *Ctx) {
 			w.use(rt)
 		case x < 72:
 			w.groupUse()
-		case x < 80:
+		case x < 77:
 			w.remove(rt)
+		case x < 80:
+			// Router.Clean / Prefix("").Clean(): every route goes, OPTIONS *, 404 and TRACE keep the middlewares they have
+			w.env.TakeMWCalls()
+			if r.Bool() {
+				rt.r.Clean()
+				w.log("%s.Clean()", rt.name)
+			} else {
+				rt.r.Prefix("").Clean()
+				w.log("%s.Prefix(\"\").Clean()", rt.name)
+			}
+			rt.pats = map[string]*mwEntry{}
+			w.checkCalls(rt.name+".Clean()", w.env.TakeMWCalls(), nil, nil)
+			w.c.Class("router_clean_between_use_calls")
 		case x < 88:
 			if len(w.routers) < 4 {
 				w.newRouter(fmt.Sprintf("r%d", len(w.routers)), r.Bool(), r.Chance(1, 3))
